@@ -14,8 +14,11 @@ import os
 from engine import core, tla
 
 LEVEL = 'model_checking'
-INVS = ['TypeOK', 'InvAvailable', 'InvIdentity', 'InvOrder', 'InvNoHistory', 'InvUnion']
+INVS = ['TypeOK', 'InvAvailable', 'InvIdentity', 'InvOrder', 'InvNoHistory', 'InvUnion', 'InvTextAvailable']
 BASE = 'http://h/d/'
+BASE_T = 'file:///nonexistent-x04/d/'        # a failed fetch must be immediate and local
+CONTENT = {'a': 'line1\nline2\r\nline3', 'b': '', 'c': 'x\n'}
+LINES = {'a': 3, 'b': 0, 'c': 1}
 VERSIONS = ('2.0', '3.0', '3.1')
 
 
@@ -25,6 +28,11 @@ def spell(sp, u):
 
 def expr_of(q):
     kind = q[0]
+    if kind == 'text':
+        _, f, sp, u = q
+        s = {'abs': f'{BASE_T}{u}.txt', 'rel': f'{u}.txt', 'dotdot': f'../d/{u}.txt'}[sp]
+        return {'tavail': f'unparsed-text-available("{s}")', 'text': f'unparsed-text("{s}")',
+                'tlines': f'count(unparsed-text-lines("{s}"))'}[f]
     if kind == 'ask':
         _, f, sp, u = q
         s = spell(sp, u)
@@ -46,6 +54,12 @@ def expr_of(q):
 
 
 def expected(q, ans):
+    if ans == ('FOUT1170',):
+        return ('err', 'FOUT1170')
+    if isinstance(ans, tuple) and ans[0] == 'content':
+        return CONTENT[ans[1]]
+    if isinstance(ans, tuple) and ans[0] == 'lines':
+        return LINES[ans[1]]
     if ans == 'FODC0002':
         return ('err', 'FODC0002')
     if ans in ('true', 'false'):
@@ -75,9 +89,9 @@ def walk(job):
     import elementpath
     from elementpath.xpath30 import XPath30Parser
     from elementpath.xpath31 import XPath31Parser
-    lib, version, paths = job
+    lib, version, paths, part = job
     cls = {'2.0': elementpath.XPath2Parser, '3.0': XPath30Parser, '3.1': XPath31Parser}[version]
-    parser = cls(base_uri=BASE)
+    parser = cls(base_uri=BASE if part == 'docs' else BASE_T)
     tokens = {}
     out = []
 
@@ -87,8 +101,8 @@ def walk(job):
     root = mkdoc('r')
     for path in paths:
         pool = {}                                  # the caller keeps its document objects across contexts
-        for docs, coll, dflt, q, ans in path:
-            if q[0] not in ('ask', 'pair', 'coll', 'colldoc'):
+        for docs, coll, dflt, texts, q, ans in path:
+            if q[0] not in ('ask', 'pair', 'coll', 'colldoc', 'text'):
                 continue
             expr = expr_of(q)
             tok = tokens.get(expr)
@@ -96,6 +110,8 @@ def walk(job):
                 tok = tokens[expr] = parser.parse(expr)
             mapping = {f'{BASE}{u}.xml': pool.setdefault(u, mkdoc(u)) for u in docs}
             kw = {}
+            if part == 'texts':
+                kw['text_resources'] = {f'{BASE_T}{u}.txt': CONTENT[u] for u in texts}
             if coll != 'undef':
                 kw['collections'] = {f'{BASE}c1': [pool.setdefault(u, mkdoc(u)) for u in sorted(coll)]}
             if dflt != 'undef':
@@ -119,20 +135,30 @@ def walk(job):
             want = expected(q, ans)
             if ans == 'either':
                 want = got if got in ([], ('err', 'FODC0002')) else 'empty sequence or FODC0002'
-            out.append((got == want, lib, version, sorted(docs), list(q), expr, want, got))
+            out.append((got == want, lib, version, sorted(docs) if part == 'docs' else sorted(texts), list(q), expr, want, got))
     return out
 
 
 def run(chk: core.Check) -> None:
-    consts = {'Uris': {'a', 'b'} if chk.tier == 'quick' else {'a', 'b', 'c'}, 'MaxSteps': 4 if chk.tier == 'quick' else 3}
-    wd = os.path.join(chk.scratch, 'res')
+    n = 0
+    for part in ('docs', 'texts'):
+        consts = {'Uris': {'a', 'b'} if (chk.tier == 'quick' and part == 'docs') else {'a', 'b', 'c'},
+                  'MaxSteps': 4 if (chk.tier == 'quick' or part == 'texts') else 3, 'Part': part}
+        n += run_part(chk, part, consts)
+    chk.add('evaluations', n)
+    chk.coverage['rule'] = 'every state of Resources reached along a BFS history; one token per expression per (library, version) for the whole run'
+    chk.coverage['exhaustive'] = True
+    chk.assumptions += ['documents / collections / texts are given through XPathContext(documents=, collections=, default_collection=, text_resources=); nothing is fetched: missing texts use file: URIs that do not exist']
+
+
+def run_part(chk, part, consts) -> int:
+    wd = os.path.join(chk.scratch, 'res-' + part)
     dot = os.path.join(wd, 'g.dot')
     r = tla.require_ok(tla.run_tlc('Resources', tla.cfg_text(consts, invariants=INVS), wd, dump_dot=dot, coverage=True),
-                       'Resources', min_distinct=100)
-    chk.model('Resources/' + chk.tier, r)
+                       'Resources/' + part, min_distinct=100)
+    chk.model(f'Resources/{part}-{chk.tier}', r)
     g = tla.load_dot(dot)
     chk.add('transitions', len(g.edges))
-    # every edge once, reached along a BFS path from the initial state (the path is replayed as a history)
     from collections import deque
     out_edges = {}
     for s, d, a, args in g.edges:
@@ -154,7 +180,7 @@ def run(chk: core.Check) -> None:
         st = g.states[sid]
         coll = 'undef' if '#undef' in st['coll'] else sorted(st['coll'])
         dflt = 'undef' if '#undef' in st['dflt'] else sorted(st['dflt'])
-        return (sorted(st['docs']), coll, dflt, tuple(st['q']), st['ans'])
+        return (sorted(st['docs']), coll, dflt, sorted(st['texts']), tuple(st['q']), st['ans'])
     has_child = set(parent.values())
     paths = []
     for sid in order:
@@ -169,37 +195,34 @@ def run(chk: core.Check) -> None:
         raise tla.MachineryError('Resources: too few histories (vacuous)')
     jobs = []
     for lib in ('etree', 'lxml'):
-        for version in VERSIONS:
+        for version in (VERSIONS if part == 'docs' else ('3.0', '3.1')):
             for chunk in core.chunked(paths, max(1, len(paths) // 6)):
-                jobs.append((lib, version, chunk))
-    n = bad = 0
+                jobs.append((lib, version, chunk, part))
+    n = 0
     for out in core.pool_map(walk, jobs):
         for ok, lib, version, docs, q, expr, want, got in out:
             q = list(q) + ['', '', '']
             n += 1
             if not ok:
-                bad += 1
                 form = q[1]
                 chk.fail({'family': 'resources', 'form': form, 'lib': lib, 'version': version,
                           'expected': 'err' if isinstance(want, tuple) else 'value',
                           'observed': got[0] if isinstance(got, tuple) else 'value',
-                          'same_uri': q[0] == 'pair' and q[2] == q[3], 'spelling': q[2] if q[0] == 'ask' else 'rel+abs', 'qkind': q[0]},
-                         {'docs': docs, 'expr': expr, 'lib': lib, 'version': version}, want, got, f'{form} over documents {docs}')
+                          'same_uri': q[0] == 'pair' and q[2] == q[3], 'spelling': q[2] if q[0] in ('ask', 'text') else 'rel+abs',
+                          'qkind': q[0]},
+                         {'docs': docs, 'expr': expr, 'lib': lib, 'version': version}, want, got, f'{form} over {docs}')
             elif n % 5000 == 1:
                 chk.sample({'docs': docs, 'expr': expr, 'lib': lib, 'version': version, 'value': got})
-    chk.add('evaluations', n)
-    chk.add('traces_validated_against_impl', len(paths) * 6)
+    chk.add('traces_validated_against_impl', len(paths) * len(jobs) // max(1, len(jobs) // 6) // 6)
     chk.add('distinct_nontrivial', len(g.states))
-    chk.coverage['rule'] = 'every state of Resources reached along a BFS history; one token per expression per (library, version) for the whole run'
-    chk.coverage['exhaustive'] = True
-    chk.coverage['constants'] = {k: sorted(v) if isinstance(v, set) else v for k, v in consts.items()}
-    chk.assumptions += ['documents are given through XPathContext(documents=...) with absolute http URIs; nothing is fetched']
+    chk.coverage.setdefault('constants', {})[part] = {k: sorted(v) if isinstance(v, set) else v for k, v in consts.items()}
+    return n
 
 
 def replay(rec) -> int:
     core.setup_repo_path()
     c = rec['case']
     q = ('x',)
-    out = walk((c['lib'], c['version'], []))
+    out = walk((c['lib'], c['version'], [], 'docs'))
     print('case', c, 'expected', rec['expected'], '(re-run ./check X04 to reproduce along its history)', out, q)
     return 0
